@@ -1,0 +1,19 @@
+//go:build verif
+
+package workflow
+
+import (
+	"gopkg.in/yaml.v3"
+)
+
+// VerifRoleTreeFromYAML unmarshals a workflow template document into a role tree exactly as
+// Load's loadSubworkflow does (new(aggregatorRole) + yaml.Unmarshal, which links the parents),
+// without template processing and without a repository. Verification harnesses use it to
+// read the constraints a task role inherits (Role.GenerateTaskDescriptors -> RoleConstraints).
+func VerifRoleTreeFromYAML(yamlDoc []byte) (Role, error) {
+	root := new(aggregatorRole)
+	if err := yaml.Unmarshal(yamlDoc, root); err != nil {
+		return nil, err
+	}
+	return root, nil
+}
